@@ -161,7 +161,58 @@ def rule_moves(ctx, rep):
     rep.floor("R-MOVE", 13, "conversions named by the property (13 in the default configuration)")
 
 
+def rule_sameblock(ctx, rep):
+    """Conversions that consume a handle return a handle to the very same block (pointer normal forms; the offset lemma
+    `(&(*P).data) - offset_of_data == P` is validated on the layout matrix by C05)."""
+    from .. import ptrclass
+    from . import c11
+
+    for tag, F, E in ctx.each():
+        N = ptrclass.Norm(F)
+        PF = N.handle_ptr_fields
+
+        def block_of(n):
+            n = c11.simp(n)
+            while n[0] == "mk" and n[1] == "UniqueArc":
+                n = c11.simp(n[2])
+            if n[0] == "mk" and n[1] in ("Arc", "ThinArc"):
+                return c11.simp(n[2])
+            if n[0] == "mk" and n[1] == "OffsetArc":
+                return c11.simp(("sub_off", n[2]))
+            return None
+
+        def arg_block(ty_idx):
+            hn = F.handle_name(ty_idx)
+            a = ("arg", 1)
+            if hn == "UniqueArc":
+                inner = [f for f in F.adts[F.handle_paths["UniqueArc"]]["variants"][0]["fields"]][0]
+                return ("stored", ("stored", a, inner["name"]), PF.get("Arc"))
+            if hn in ("Arc", "ThinArc"):
+                return ("stored", a, PF.get(hn))
+            if hn == "OffsetArc":
+                return ("sub_off", ("stored", a, PF.get("OffsetArc")))
+            return None
+
+        for h, name, trait in MOVES:
+            for b in F.method(h, name, trait):
+                if not b.get("inputs") or not F.tokens(b["inputs"][0])[0]:
+                    continue
+                want = arg_block(b["inputs"][0])
+                if want is None:
+                    continue
+                n = N.ret(b["key"])
+                got = block_of(n)
+                if got is None:
+                    continue  # not a handle-to-handle conversion this rule understands (e.g. into a union word: C12)
+                if got == c11.simp(want):
+                    rep.ok("R-SAMEBLOCK", b["key"], ptrclass.show(n), cfg=tag)
+                else:
+                    rep.bad("R-SAMEBLOCK", b["key"], "the conversion returns %s: its block pointer is not the argument's block pointer (%s), so counts would be taken from / given back to a different address for some payload shapes" % (ptrclass.show(n), ptrclass.show(c11.simp(want))), F.loc(b), tag)
+    rep.floor("R-SAMEBLOCK", 8, "handle-to-handle conversions")
+
+
 def run(ctx, rep):
+    rule_sameblock(ctx, rep)
     balance.rule_bal(ctx, rep)
     balance.rule_unw(ctx, rep)
     rule_funnel(ctx, rep)
